@@ -407,4 +407,56 @@ theorem constructions_mirror {a b : Node} (hA : LogAgreement a b) {hLa hRa hLb h
   · rw [ob, ta, ← fb, ← fa, hfee, m1, c2]
   · rw [tb, oa, ← fb, ← fa, hfee, m2, c2, Bool.not_not]
 
+/-! ### HTLC lists -/
+
+def mirrorHtlc (h : Htlc) : Htlc := { h with incoming := !h.incoming }
+
+/-- an HTLC of a commitment as a function of what the construction sees of its add entry. -/
+def htlcOfA (incoming : Bool) (secondFee dust : Nat) (a : AEntry) : Htlc :=
+  { incoming := incoming, idx := a.htlcIndex, amt := a.amt, expiry := a.expiry, hash := a.hash,
+    dust := decide (a.amt / 1000 < dust + secondFee) }
+
+theorem htlcOf_abs (cfg : Cfg) (incoming : Bool) (c : Chain) (f : Nat) (l : List Entry) :
+    l.map (htlcOf cfg incoming c f) =
+      (l.map (absE c)).map (htlcOfA incoming (secondFee cfg incoming c f) (cfg.dust c)) := by
+  rw [List.map_map]
+  apply List.map_congr_left
+  intro e _
+  simp only [htlcOf, htlcOfA, htlcIsDust, absE, secondFee, Function.comp]
+  cases incoming <;> cases c <;> rfl
+
+theorem map_mirror_htlcOfA (incoming : Bool) (sf d : Nat) (l : List AEntry) :
+    (l.map (htlcOfA incoming sf d)).map mirrorHtlc = l.map (htlcOfA (!incoming) sf d) := by
+  rw [List.map_map]; rfl
+
+
+theorem buildCommit_htlcs {cfg : Cfg} {c : Chain} {tip : Commit} {r : ViewResult} {a b d e : Nat} {cm : Commit}
+    (h : buildCommit cfg c tip r a b d e = .ok cm) :
+    cm.htlcs = r.liveL.map (htlcOf cfg false c r.feePerKw) ++ r.liveR.map (htlcOf cfg true c r.feePerKw) := by
+  unfold buildCommit at h
+  simp only at h
+  generalize commitOuts cfg c _ _ _ _ = outs at h
+  split at h
+  · cases h
+  · split at h
+    · cases h
+    · simp only [Except.ok.injEq] at h
+      rw [← h]
+
+/-- under `LogAgreement` the HTLC lists of the two constructions are mirror images (the receiver
+    lists its outgoing HTLCs first, the signer lists them as incoming last). -/
+theorem constructions_mirror_htlcs {a b : Node} (hA : LogAgreement a b) {hLa hRa hLb hRb : Nat}
+    {cma cmb : Commit} {a' b' : Node}
+    (ha : fetchCommitmentView a .rem a.logL.logIndex hLa a.chainL.tail.theirMsg hRa = .ok (cma, a'))
+    (hb : fetchCommitmentView b .loc b.chainR.tail.ourMsg hLb b.logR.logIndex hRb = .ok (cmb, b')) :
+    ∃ o i, cma.htlcs = o ++ i ∧ cmb.htlcs.map mirrorHtlc = i ++ o := by
+  obtain ⟨ra, hca, hba⟩ := fetch_ok_parts ha
+  obtain ⟨rb, hcb, hbb⟩ := fetch_ok_parts hb
+  obtain ⟨_, _, m3, m4, m5⟩ := computeView_mirror hA.cfg hA.tip hA.liveOurs hA.liveTheirs hA.newOurs hA.newTheirs hA.fee hca hcb
+  obtain ⟨c1, _, _, _, c5, c6⟩ := mirror_cfg_facts hA.cfg
+  refine ⟨_, _, buildCommit_htlcs hba, ?_⟩
+  rw [buildCommit_htlcs hbb, List.map_append, htlcOf_abs, htlcOf_abs, map_mirror_htlcOfA, map_mirror_htlcOfA,
+      htlcOf_abs, htlcOf_abs, m3, m4, m5]
+  simp only [secondFee, Cfg.dust, c1, c5, c6, Bool.not_true, Bool.not_false]
+
 end LndModel.C01
